@@ -47,7 +47,7 @@ var renderEntries = [][2]string{
 var orderExceptions = map[string]string{}
 
 func runC05(w *World, r *Report) {
-	r.Rule("C05/ORDER", "no map range on the render path (functions statically reachable from the render entry points) has an order-dependent body: writes keyed by the range key, collect-then-total-sort, key-equality lookups and commutative accumulation are the only forms", 14)
+	r.Rule("C05/ORDER", "no map range on the render path (functions statically reachable from the render entry points) has an order-dependent body: writes keyed by the range key, collect-then-total-sort, key-equality lookups and commutative accumulation are the only forms; map iterators (maps.Keys/Values/All) are sorted before use", 8)
 	r.Rule("C05/STABLE-SORT", "sorts that carry an ordering guarantee on the render path use stable variants (kind sort of manifests and hooks), and the template order comparator is total", 3)
 	r.Rule("C05/FUNCMAP", "no template function reaches environment, file-system, network or process primitives: sprig entries that do are deleted on every path of funcMap(), getHostByName is stubbed unless EnableDNS, helm's own functions and Files methods reach none; time/randomness functions are a frozen named list", 12)
 	r.Rule("C05/SCHEMA-LOADER", "every jsonschema Compile is preceded by UseLoader with a loader type declared in helm whose Load reaches no file-system or network primitive", 1)
@@ -149,7 +149,144 @@ func c05Order(w *World, r *Report, scope map[*ssa.Function]bool) {
 			f := findings[0]
 			r.Bad("C05/ORDER", key, w.InstrPos(f.At), "map iteration order reaches the result: "+f.What)
 		}
+		// iterator forms: maps.Keys / maps.Values / maps.All
+		for _, c := range callInstrs(fn) {
+			f, _ := calleeOf(c.Common())
+			if f == nil || fnPkgPath(f) != "maps" {
+				continue
+			}
+			gn := genericName(f)
+			if gn != "Keys" && gn != "Values" && gn != "All" {
+				continue
+			}
+			key := FuncName(fn) + "/iter:maps." + gn
+			seenKey[key]++
+			if seenKey[key] > 1 {
+				key = fmt.Sprintf("%s#%d", key, seenKey[key])
+			}
+			ok, why := iterOrderIndependent(w, fn, c)
+			r.Check(ok, "C05/ORDER", key, w.InstrPos(c), "map iterator consumed order-independently ("+why+")", "map iteration order reaches the result: "+why)
+		}
 	}
+}
+
+// iterOrderIndependent: the sequence produced by maps.Keys/Values/All is sorted before anything can
+// observe its order (slices.Sorted*, or slices.Collect followed by a sort that dominates every other
+// use), or it is ranged over with a body that only writes entries keyed by the element.
+func iterOrderIndependent(w *World, fn *ssa.Function, c ssa.CallInstruction) (bool, string) {
+	v := c.Value()
+	if v == nil || v.Referrers() == nil {
+		return true, "unused"
+	}
+	g := FullGraph(fn)
+	for _, rf := range *v.Referrers() {
+		call, ok := rf.(ssa.CallInstruction)
+		if !ok {
+			if _, isDbg := rf.(*ssa.DebugRef); isDbg {
+				continue
+			}
+			return false, "the iterator escapes"
+		}
+		if call.Common().Value == v {
+			// for … := range seq { body }: the body is the yield closure
+			if len(call.Common().Args) == 1 {
+				if mc, ok := call.Common().Args[0].(*ssa.MakeClosure); ok {
+					if yf, ok := mc.Fn.(*ssa.Function); ok {
+						for _, yc := range callInstrs(yf) {
+							if bi, ok := yc.Common().Value.(*ssa.Builtin); ok && bi.Name() == "append" {
+								return false, "elements are appended in iteration order"
+							}
+							if s := isOrderSink(yc.Common()); s != "" {
+								return false, "the loop body writes to " + s + " in iteration order"
+							}
+						}
+						continue
+					}
+				}
+			}
+			return false, "the iterator is driven by hand"
+		}
+		cf, _ := calleeOf(call.Common())
+		if cf == nil || fnPkgPath(cf) != "slices" {
+			return false, "the iterator is handed to " + describeCall(call.Common())
+		}
+		switch genericName(cf) {
+		case "Sorted", "SortedFunc", "SortedStableFunc":
+			continue
+		case "Collect", "AppendSeq":
+			cv := call.Value()
+			if cv == nil || cv.Referrers() == nil {
+				continue
+			}
+			// a sort of the collected slice must dominate every other use (the slice may be converted to
+			// a sort.Interface type first)
+			aliases := map[ssa.Value]bool{cv: true}
+			work := []ssa.Value{cv}
+			var uses []ssa.Instruction
+			for len(work) > 0 {
+				x := work[len(work)-1]
+				work = work[:len(work)-1]
+				if x.Referrers() == nil {
+					continue
+				}
+				for _, u := range *x.Referrers() {
+					switch y := u.(type) {
+					case *ssa.ChangeType:
+						if !aliases[y] {
+							aliases[y] = true
+							work = append(work, y)
+						}
+					case *ssa.Convert:
+						if !aliases[y] {
+							aliases[y] = true
+							work = append(work, y)
+						}
+					case *ssa.MakeInterface:
+						if !aliases[y] {
+							aliases[y] = true
+							work = append(work, y)
+						}
+					case *ssa.DebugRef:
+					default:
+						uses = append(uses, u)
+					}
+				}
+			}
+			var sorts []ssa.Instruction
+			for _, u := range uses {
+				if uc, ok := u.(ssa.CallInstruction); ok {
+					if sf, _ := calleeOf(uc.Common()); sf != nil && (fnPkgPath(sf) == "sort" || fnPkgPath(sf) == "slices") && strings.HasPrefix(genericName(sf), "S") && !strings.HasPrefix(genericName(sf), "Search") {
+						if fnPkgPath(sf) == "sort" && (sf.Name() == "Sort" || sf.Name() == "Stable") {
+							if tot, why := lessIsTotal(w, uc.Common().Args[0]); !tot {
+								return false, "the collected keys are sorted with a comparator that is not total: " + why
+							}
+						}
+						sorts = append(sorts, uc)
+					}
+				}
+			}
+			if len(sorts) == 0 {
+				return false, "the collected keys are used unsorted"
+			}
+			for _, u := range uses {
+				isSort := false
+				for _, s := range sorts {
+					if s == u {
+						isSort = true
+					}
+				}
+				if isSort {
+					continue
+				}
+				if ex, _ := g.PathExists(entryPos(fn), posOf(u), avoidInstrs(sorts...)); ex {
+					return false, "the collected keys are used before they are sorted"
+				}
+			}
+		default:
+			return false, "the iterator is handed to slices." + genericName(cf)
+		}
+	}
+	return true, "sorted before use"
 }
 
 func c05StableSort(w *World, r *Report) {
